@@ -352,7 +352,7 @@ def serialize_open_flags(flags: int) -> List[BscOpenFlags]:
 
 def serialize_stat_flags(flags: int) -> List[StatFlags]:
     stat_flags = []
-    for flag in list(StatFlags):
+    for flag in StatFlags.__members__.values():
         if flag.value & S_IFMT:
             if flags & S_IFMT == flag.value:
                 stat_flags.append(flag)
